@@ -1,5 +1,6 @@
 import Norad.Base.Proto
 import Norad.Model.C18
+import Norad.Model.DSCodec
 import Norad.Spec.C18
 /-!
 Driver module for C18 (line formats: see `harness/src/c18.rs`).
@@ -58,46 +59,6 @@ def numTok (t : String) : Option (Nat × String) :=
     | _, _ => none
   | _ => none
 
-def b64chars : Array Char := "ABCDEFGHIJKLMNOPQRSTUVWXYZabcdefghijklmnopqrstuvwxyz0123456789+/".toList.toArray
-
-def b64enc : List UInt8 → List Char
-  | [] => []
-  | [a] =>
-    let n := a.toNat * 65536
-    [b64chars[n / 262144 % 64]!, b64chars[n / 4096 % 64]!, '=', '=']
-  | [a, b] =>
-    let n := a.toNat * 65536 + b.toNat * 256
-    [b64chars[n / 262144 % 64]!, b64chars[n / 4096 % 64]!, b64chars[n / 64 % 64]!, '=']
-  | a :: b :: c :: r =>
-    let n := a.toNat * 65536 + b.toNat * 256 + c.toNat
-    b64chars[n / 262144 % 64]! :: b64chars[n / 4096 % 64]! :: b64chars[n / 64 % 64]! :: b64chars[n % 64]! :: b64enc r
-
-def b64val (ch : Char) : Option Nat :=
-  if 'A' ≤ ch ∧ ch ≤ 'Z' then some (ch.toNat - 'A'.toNat)
-  else if 'a' ≤ ch ∧ ch ≤ 'z' then some (ch.toNat - 'a'.toNat + 26)
-  else if '0' ≤ ch ∧ ch ≤ '9' then some (ch.toNat - '0'.toNat + 52)
-  else if ch = '+' then some 62 else if ch = '/' then some 63 else none
-
-partial def b64dec : List Char → Option (List UInt8)
-  | [] => some []
-  | [a, b, '=', '='] =>
-    match b64val a, b64val b with
-    | some x, some y => if y % 16 = 0 then some [UInt8.ofNat ((x * 64 + y) / 16)] else none
-    | _, _ => none
-  | [a, b, c, '='] =>
-    match b64val a, b64val b, b64val c with
-    | some x, some y, some z =>
-      let n := (x * 64 + y) * 64 + z
-      if n % 4 = 0 then some [UInt8.ofNat (n / 1024), UInt8.ofNat (n / 4 % 256)] else none
-    | _, _, _ => none
-  | a :: b :: c :: d :: r =>
-    match b64val a, b64val b, b64val c, b64val d, b64dec r with
-    | some x, some y, some z, some w, some t =>
-      let n := ((x * 64 + y) * 64 + z) * 64 + w
-      some (UInt8.ofNat (n / 65536) :: UInt8.ofNat (n / 256 % 256) :: UInt8.ofNat (n % 256) :: t)
-    | _, _, _, _, _ => none
-  | _ => none
-
 def decNat (cs : List Char) : Option Nat :=
   if cs.isEmpty then none else
   cs.foldl (fun acc ch => match acc with
@@ -121,11 +82,10 @@ def mkCodec (t : Tab) : Codec where
     | none => "?f64:" ++ toString x.bits
   readF64 s :=
     if s = "NaN" then some ⟨0x7ff8000000000000⟩ else (t.f64.find? (·.2 = s)).map fun e => ⟨e.1⟩
-  showInt i := toString i
-  parseI64 s := (parseSigned s).bind fun i => if i64Min ≤ i ∧ i ≤ i64Max then some i else none
-  parseU64 s := match s.toList with
-    | '-' :: _ => none
-    | _ => (parseSigned s).bind fun i => if 0 ≤ i ∧ i ≤ u64Max then some i else none
+  -- integers and base64: the implementations `codecLaws_refCodec` is proved about (Model/DSCodec.lean)
+  showInt := intShow
+  parseI64 := parseI64
+  parseU64 := parseU64
   parseHexU64 s := if s.isEmpty then none else (hexNat s).bind fun n => if (n : Int) ≤ u64Max then some (n : Int) else none
   encData d := String.ofList (b64enc d)
   decData s := b64dec s.toList
@@ -320,26 +280,6 @@ partial def treeEq : Tree → Tree → Bool
   | .elem n a k, .elem m b j => n == m && a == b && k.length == j.length && (k.zip j).all fun p => treeEq p.1 p.2
   | _, _ => false
 
-def normAttrChars : List Char → List Char
-  | [] => []
-  | '\r' :: '\n' :: r => ' ' :: normAttrChars r
-  | ch :: r => (if ch = '\t' ∨ ch = '\n' ∨ ch = '\r' then ' ' else ch) :: normAttrChars r
-
-def normTextChars : List Char → List Char
-  | [] => []
-  | '\r' :: '\n' :: r => '\n' :: normTextChars r
-  | ch :: r => (if ch = '\r' then '\n' else ch) :: normTextChars r
-
-/-- what a conforming XML 1.0 processor reads from quick-xml's unescaped output: attribute-value and
-    line-end normalisation; `none` when a character is not allowed in XML at all -/
-partial def conformView : Tree → Option Tree
-  | .txt s => if Spec.hasForbidden s then none else some (.txt (String.ofList (normTextChars s.toList)))
-  | .elem n a k =>
-    if a.any (fun p => Spec.hasForbidden p.2) then none else
-    match k.mapM conformView with
-    | some k' => some (.elem n (a.map fun p => (p.1, String.ofList (normAttrChars p.2.toList))) k')
-    | none => none
-
 /-! ## strings of a document by where they are written -/
 
 def optS (x : Option String) : List String := x.toList
@@ -394,7 +334,7 @@ end
 /-! ## codec laws on the table of this line -/
 
 def lawsOk (t : Tab) : Bool :=
-  let okStr (s : String) : Bool := s ≠ "" && !s.toList.contains ' ' && edgeClean s
+  let okStr (s : String) : Bool := s ≠ "" && s.toList.all safeChar
   let inj (l : List (Nat × String)) : Bool :=
     l.all fun e => e.2 = "NaN" || (okStr e.2 && l.all fun f => f.1 = e.1 || f.2 ≠ e.2)
   inj t.f32 && inj t.f64 &&
@@ -452,14 +392,15 @@ def runSave (inp obs : List String) : Verdict :=
       (if d.instances.any (fun i => i.lib != .nil) then ["instance-lib"] else []) ++
       (if d.lib != .nil then ["doc-lib"] else []) ++ kinds ++ xmlFeats ++
       (if fBlank then ["lib-edge-blank"] else []) ++ (if fDate then ["date-range"] else []) ++
-      (if !lawsOk tab then ["codec-law-broken"] else []) ++ ["nt"]
+      (if !lawsOk tab then ["codec-law-broken"] else []) ++
+      (if Spec.XmlSafe d != xmlFeats.isEmpty then ["xmlsafe-definitions-differ"] else []) ++ ["nt"]
     -- model
     let mt := toTree c d
     let mload : Option Doc := match mt with
       | .ok t => fromTree c t
       | _ => none
     let mview : Option Tree := match mt with
-      | .ok t => conformView t
+      | .ok t => Spec.conformView t
       | _ => none
     -- implementation
     match obs with
@@ -486,7 +427,7 @@ def runSave (inp obs : List String) : Verdict :=
         let loadAgree := match iload with
           | some (l, _) => decide (l = mload)
           | none => false
-        let agree := outName mt == "ok" && treeAgree && loadAgree && lawsOk tab
+        let agree := outName mt == "ok" && treeAgree && loadAgree && lawsOk tab && Spec.XmlSafe d == xmlFeats.isEmpty
         -- oracle on the implementation's own output
         let rt : List String :=
           if !wf then [] else
@@ -508,6 +449,21 @@ def runSave (inp obs : List String) : Verdict :=
         { agree := agree, spec := rt ++ indep, tags := tags, model := m }
     | _ => { agree := false, model := "bad-observation", tags := tags }
 
+/-- quick-xml skips text events that are empty after trimming.  For struct elements the model ignores text
+    children anyway; for the plist containers (`dict`, `array`: a text child would be read as a key) a
+    white-space-only text child — an empty container written as `<dict>⏎</dict>` by another tool — is
+    dropped here before `fromTree` sees the tree.  Only the load-only streams need it: norad itself writes
+    `<dict/>`. -/
+partial def dropBlankInContainers : Tree → Tree
+  | .txt s => .txt s
+  | .elem n a k =>
+    let k' := k.map dropBlankInContainers
+    if n = "dict" ∨ n = "array" then
+      .elem n a (k'.filter fun t => match t with
+        | .txt s => trimXml s != ""
+        | _ => true)
+    else .elem n a k'
+
 /-- `C18L <hex file> => <tree|notxml> load:ok <doc> | load:err` -/
 def runLoad (_inp obs : List String) : Verdict :=
   match splitObs obs with
@@ -525,19 +481,75 @@ def runLoad (_inp obs : List String) : Verdict :=
     | some none, some t =>
       -- without a loaded document there is no number table: the model can only be asked whether it
       -- refuses the tree for a structural reason (numbers unreadable = refusal as well)
-      let m := fromTree (mkCodec {}) t
+      let m := fromTree (mkCodec {}) (dropBlankInContainers t)
       { agree := m.isNone, tags := ["file", "load-err", "nt"], model := if m.isNone then "load:err" else "load:ok" }
     | some (some (d2, tab)), some t =>
       let c := mkCodec tab
-      let m := fromTree c t
+      let m := fromTree c (dropBlankInContainers t)
       { agree := decide (m = some d2),
         spec := if decide (Spec.specRead c t = some d2) || !Spec.StatedWF d2 then [] else ["indep-reader-file"],
         tags := ["file", "load-ok", "nt"], model := if m.isSome then "load:ok" else "load:err" }
     | none, _ => { agree := false, model := "bad-observation" }
 
+/-- `C18F <seed> <doc> => surf:<f,..> alts ( F* ) ( D* ) <tree|notxml> load:ok eq:<0|1> <doc> | load:err`:
+    the description `<doc>` written by an independent writer in another tool's spelling.  Oracle: what
+    norad loaded equals the description.  Correspondence: `fromTree` on the xml.etree tree of that file. -/
+def runForeign (inp obs : List String) : Verdict :=
+  match parseSX (inp.drop 2) with
+  | none => { agree := false, model := "bad-input" }
+  | some (sx, _) =>
+  match (pDoc sx).run {} with
+  | none => { agree := false, model := "bad-doc" }
+  | some (d, tab0) =>
+    match obs with
+    | surf :: "alts" :: rest =>
+      let feats := if surf = "surf:-" then [] else ((surf.drop 5).toString.splitOn ",")
+      match parseSX rest with
+      | some (.l a32, rest) =>
+        match parseSX rest with
+        | some (.l a64, rest) =>
+          let add (l : List (Nat × String)) (xs : List SX) : List (Nat × String) :=
+            l ++ xs.filterMap fun x => match x with
+              | .a t => numTok t
+              | _ => none
+          let tab : Tab := { tab0 with f32 := add tab0.f32 a32, f64 := add tab0.f64 a64 }
+          let c := mkCodec tab
+          let tags := ["foreign-surface", "nt"] ++ feats.map ("surf-" ++ ·)
+          match splitObs rest with
+          | none => { agree := false, model := "bad-observation", tags := tags }
+          | some (itree, rest) =>
+            let iload : Option (Option Doc × Bool) := match rest with
+              | ["load:err"] => some (none, false)
+              | "load:ok" :: eq :: dt => match parseSX dt with
+                | some (x, _) => match (pDoc x).run {} with
+                  | some (d2, _) => some (some d2, eq = "eq:1")
+                  | none => none
+                | none => none
+              | _ => none
+            let m : Option Doc := match itree with
+              | some t => fromTree c (dropBlankInContainers t)
+              | none => none
+            let agree := match iload with
+              | some (l, _) => decide (l = m)
+              | none => false
+            let ff := if feats.contains "data-wrapped" then ":data-wrapped" else ""
+            let spec : List String :=
+              if !Spec.StatedWF d then ["foreign-description-not-wellformed"] else
+              if itree.isNone then ["foreign-writer-not-xml"] else
+              match iload with
+              | some (some d2, eq) => if decide (d2 = d) && eq then [] else ["foreign-differs" ++ ff]
+              | some (none, _) => ["foreign-load-fails" ++ ff]
+              | none => ["foreign-load-panics"]
+            { agree := agree, spec := spec, tags := tags,
+              model := "load:" ++ (if m.isSome then "ok" else "err") ++ (if agree then "" else " LOADED-DOC-DIFFERS") }
+        | _ => { agree := false, model := "bad-observation" }
+      | _ => { agree := false, model := "bad-observation" }
+    | _ => { agree := false, model := "bad-observation" }
+
 def run (inp obs : List String) : Verdict :=
   match inp.head? with
   | some "C18L" => runLoad inp obs
+  | some "C18F" => runForeign inp obs
   | _ => runSave inp obs
 
 end Driver.C18
